@@ -29,6 +29,7 @@ Definition nq_sub (cls : list char) (text : str) : str :=
 (* ninjabackend.py:115-128 *)
 Definition ninja_quote (is_build_line : bool) (text : str) : qres :=
   if memb 10 text || memb 13 text then QErr                                   (* :116-122 *)
+  else if is_build_line && memb 124 text then QErr   (* '|' cannot be written on a build line (fix f36fbec) *)
   else if memb 32 text || memb 36 text || (is_build_line && memb 58 text)     (* :125 *)
   then QOk (nq_sub (if is_build_line then nq_build_class else nq_var_class) text)  (* :124,126 *)
   else QOk text.                                                              (* :128 *)
